@@ -71,13 +71,14 @@ pub fn ladder_query(kind: &str, n: usize) -> Option<String> {
 pub const QUERY_LADDERS: [&str; 22] = [
     "paren", "not-paren", "nested-filter", "fn-nest", "fn-nest-broken", "fn-nest-compare", "segments", "bracket-segments", "desc-chain", "union", "or-chain", "and-chain", "singular-steps", "slice-chain", "blank-run", "long-name", "long-number", "long-exponent", "segments-after-empty", "bracket-segments-after-empty", "ge-count-filter-nest", "le-count-filter-nest",
 ];
-pub const DOC_LADDERS: [&str; 4] = ["doc-depth-built-array", "doc-depth-built-object", "doc-depth-parsed", "doc-width"];
+pub const DOC_LADDERS: [&str; 6] = ["doc-depth-built-array", "doc-depth-built-object", "doc-depth-parsed", "doc-width", "deep-equal-objects", "deep-equal-arrays"];
 
 /// the rung up to which a ladder MUST hold (violation below, exploration above)
 pub fn required_rung(kind: &str) -> usize {
     match kind {
         "doc-depth-built-array" | "doc-depth-built-object" => 512,
         "doc-depth-parsed" => 127,
+        "deep-equal-objects" | "deep-equal-arrays" => 512,
         "doc-width" | "segments" | "bracket-segments" | "segments-after-empty" | "bracket-segments-after-empty" | "union" | "or-chain" | "and-chain" | "blank-run" | "long-name" | "long-number" | "long-exponent" | "singular-steps" | "slice-chain" => 16384,
         _ => 128,
     }
@@ -173,6 +174,9 @@ impl Set {
                 cases.push(Case::Str(s, "syntax-inside-strings"));
             }
         }
+        for s in gen::long_number_literal_queries() {
+            cases.push(Case::Str(s, "long-number-literals"));
+        }
         for (k, s) in gen::double_fault_strings().into_iter().enumerate() {
             if k % 3 == 0 {
                 cases.push(Case::Str(s, "double-faults"));
@@ -230,6 +234,10 @@ impl Set {
         for k in DOC_LADDERS {
             for r in RUNGS {
                 if tier == Tier::Quick && r > 16384 {
+                    continue;
+                }
+                // these measure time; their stack depth is that of any recursive walk of the value
+                if k.starts_with("deep-equal") && r > 1024 {
                     continue;
                 }
                 cases.push(Case::Ladder(k, r));
@@ -390,6 +398,28 @@ impl CaseSet for Set {
                     } else if let Some(q) = ladder_query(kind, *rung) {
                         self.run_str(&q, idx, false, true, &mut acc_l, &mut out_l);
                     } else {
+                        if kind.starts_with("deep-equal") {
+                            // two structurally equal values nested `rung` levels, compared by
+                            // == / != / <= (work must grow with the size, not double per level)
+                            let mut v = json!({"leaf": [1, 2.0, "s"], "k": null});
+                            for i in 0..*rung {
+                                v = if *kind == "deep-equal-objects" { json!({"a": v, "k": i}) } else { Value::Array(vec![json!(i), v]) };
+                            }
+                            let d = json!({"x": v.clone(), "y": [v.clone(), 1, v]});
+                            for (q, want) in [("$.y[?@ == $.x]", 2usize), ("$.y[?@ != $.x]", 1), ("$.y[?@ <= $.x]", 2), ("$.y[?$.x == @ && @ == @]", 2)] {
+                                match libapi::query_with_path(q, &d) {
+                                    LibOutcome::Ok(ns) if ns.len() == want => {}
+                                    LibOutcome::Ok(ns) => out_l.push((format!("{} on the {} ladder at rung {} selects {} nodes instead of {}", q, kind, rung, ns.len(), want), self.describe(idx))),
+                                    o => out_l.push((format!("{} on the {} ladder at rung {}: {}", q, kind, rung, o.brief()), self.describe(idx))),
+                                }
+                            }
+                            forget(d);
+                            outm.lock().unwrap().extend(out_l);
+                            let mut a = accm.lock().unwrap();
+                            let merged = Acc::merge(vec![std::mem::take(&mut **a), acc_l]);
+                            **a = merged;
+                            return;
+                        }
                         let queries = ["$..*", "$..a", "$..[0]", "$[?@..a]", "$[*]", "$[::-1]", "$[?@ > 1]", "$[?count(@..*) > 1]", "$..[?@.a]"];
                         let doc: Option<Value> = match *kind {
                             "doc-depth-built-array" => Some(build_deep(*rung, false)),
